@@ -134,3 +134,98 @@ Definition kv_chk_C06 (c : scase * list ostep) : bool := chk_C06_kv c.
 Definition kv_chk_C07 (c : scase * list ostep) : bool := chk_C07_kv c.
 Definition kv_chk_C08 (c : scase * list ostep) : bool := chk_C08_kv c.
 Definition kv_chk_C17 (c : scase * list ostep) : bool := chk_C17_kv c.
+
+(* ------------------------------------------------------------------------------------------ *)
+(* Property-specific projections.  The model is compared with the implementation at the FIRST step
+   at which they differ in anything (after that step the model no longer tracks the
+   implementation's state).  A property's correspondence is broken only if that first divergence
+   shows in what the property talks about: its mask of observable fields, and the calls it
+   concerns.                                                                                    *)
+
+Record pmask := mkMask {
+  pm_resp : bool; pm_body : bool; pm_cas : bool; pm_exp : bool; pm_xattrs : bool;
+  pm_rev : bool; pm_json : bool; pm_del : bool; pm_live : bool; pm_order : bool
+}.
+
+Definition mN (b : bool) (n : N) : N := if b then n else 0.
+Definition mS (b : bool) (s : string) : string := if b then s else "".
+
+Definition is_virtual (k : string) : bool := String.eqb k "$document" || String.eqb k "$document.revid".
+
+Definition mask_fevent (m : pmask) (f : fevent) : fevent :=
+  mkFevent (if pm_del m then f_op f else FMutation) (f_key f) (mS (pm_body m) (f_body f))
+           (if pm_xattrs m then f_xattrs f else []) (pm_json m && f_json f) (pm_xattrs m && f_xbit f)
+           (mN (pm_cas m) (f_cas f)) (mN (pm_exp m) (f_exp f)) (mN (pm_rev m) (f_rev f)) (f_coll f).
+
+Definition mask_xs (m : pmask) (xs : list (string * string)) : list (string * string) :=
+  filter (fun kv => if String.eqb (fst kv) "$document.revid" then pm_rev m
+                    else if String.eqb (fst kv) "$document" then pm_rev m && pm_body m
+                    else pm_xattrs m) xs.
+
+Definition mask_resp (m : pmask) (r : resp) : resp :=
+  match r with
+  | RVal v c => RVal (mS (pm_body m) v) (mN (pm_cas m) c)
+  | RCas c => RCas (mN (pm_cas m) c)
+  | RDoc b xs c => RDoc (if pm_body m then b else None) (mask_xs m xs) (mN (pm_cas m) c)
+  | RXattrs xs c => RXattrs (mask_xs m xs) (mN (pm_cas m) c)
+  | RNum n => RNum n
+  | x => x
+  end.
+
+Definition mask_obs (m : pmask) (o : obsrow) : obsrow :=
+  mkObs (if pm_body m || pm_cas m then mask_resp m (o_get o) else ROk)
+        (if pm_exp m then o_exp o else ROk)
+        (if pm_body m || pm_xattrs m || pm_rev m then mask_resp m (o_doc o) else ROk)
+        (pm_body m && o_exists o)
+        (option_map (mask_fevent m) (o_dump o)).
+
+Definition mask_snap (m : pmask) (s : snapshot) : snapshot :=
+  mkSnap (sn_colls s) (map (fun e => (fst e, mask_obs m (snd e))) (sn_rows s))
+         (if pm_order m then sn_order s else []) [].
+
+Definition mask_ostep (m : pmask) (o : ostep) : ostep :=
+  mkOstep (if pm_resp m then mask_resp m (os_resp o) else ROk)
+          (if pm_live m then map (mask_fevent m) (os_live o) else [])
+          (mask_snap m (os_snap o)).
+
+Definition step_relevant := sop -> bool.
+
+Definition kv_corr_proj (m : pmask) (rel : step_relevant) (c : scase * list ostep) : bool :=
+  match first_mismatch 0 (srun (fst c)) (snd c) with
+  | None => true
+  | Some (i, Some mo, Some ob) =>
+      match nth_error (sc_steps (fst c)) (N.to_nat i) with
+      | Some (_, o) => if rel o then ostep_match (mask_ostep m mo) (mask_ostep m ob) else true
+      | None => false
+      end
+  | Some _ => false      (* the implementation trace stopped early or ran on: every property is concerned *)
+  end.
+
+Definition rel_all : step_relevant := fun _ => true.
+Definition rel_kv (f : kop -> bool) : step_relevant := fun o => match o with SKv _ _ op => f op | _ => false end.
+Definition rel_kv_or_admin (f : kop -> bool) : step_relevant := fun o => match o with SKv _ _ op => f op | _ => true end.
+
+Definition xattr_op (op : kop) : bool :=
+  match op with
+  | KSetXattrs _ | KRemoveXattrs _ _ | KDeleteSubDocPaths _ | KDeleteWithXattrs _ | KWriteWithXattrs _ _ _ _ _ _ _
+  | KWriteTombstoneWithXattrs _ _ _ _ _ _ | KWriteResurrectionWithXattrs _ _ _ _ _ | KUpdateXattrs _ _ _ _
+  | KUpdateXattrDeleteBody _ _ _ _ _ | KWriteUpdateWithXattrs _ _ | KGetWithXattrs _ | KGetXattrs _ => true
+  | _ => body_only op
+  end.
+
+(*                               resp  body  cas   exp   xattr rev   json  del   live  order *)
+Definition mask_C01 := mkMask    true  true  true  true  false false false false false false.
+Definition mask_C02 := mkMask    true  true  true  true  true  false false false false false.
+Definition mask_C05 := mkMask    true  true  false true  true  false false true  true  false.
+Definition mask_C06 := mkMask    true  true  true  true  true  false false false false false.
+Definition mask_C07 := mkMask    true  true  true  true  true  false false false false false.
+Definition mask_C08 := mkMask    true  true  true  true  true  true  true  true  true  false.
+Definition mask_C17 := mkMask    false false false false false true  false false true  false.
+
+Definition kv_corr_C01 := kv_corr_proj mask_C01 rel_all.
+Definition kv_corr_C02 := kv_corr_proj mask_C02 (rel_kv (fun op => is_some (cas_arg op))).
+Definition kv_corr_C05 := kv_corr_proj mask_C05 rel_all.
+Definition kv_corr_C06 := kv_corr_proj mask_C06 (rel_kv (fun op => is_insert op || match op with KWriteWithXattrs _ 0 _ _ _ _ _ => true | _ => false end)).
+Definition kv_corr_C07 := kv_corr_proj mask_C07 (rel_kv xattr_op).
+Definition kv_corr_C08 := kv_corr_proj mask_C08 (rel_kv_or_admin (fun op => negb (is_read op))).
+Definition kv_corr_C17 := kv_corr_proj mask_C17 rel_all.
